@@ -42,6 +42,7 @@ pub fn from_string_inner(ast: &DeriveInput) -> syn::Result<TokenStream> {
     // `phf_map!` rejects duplicate keys. The first arm to claim a key wins, which is what the
     // equivalent `match` does.
     let mut phf_keys = ::std::collections::HashSet::new();
+    let mut phf_earlier_insensitive: Vec<String> = Vec::new();
     let mut standard_match_arms = Vec::new();
     for variant in variants {
         let ident = &variant.ident;
@@ -121,9 +122,18 @@ pub fn from_string_inner(ast: &DeriveInput) -> syn::Result<TokenStream> {
             .unwrap_or(type_properties.ascii_case_insensitive);
 
         // If we don't have any custom variants, add the default serialized name.
-        for serialization in variant_properties.get_serializations(type_properties.case_style) {
+        let serializations = variant_properties.get_serializations(type_properties.case_style);
+        for serialization in &serializations {
             if type_properties.use_phf {
-                if phf_keys.insert(serialization.value()) {
+                // A key that an earlier case-insensitive variant also matches must not be answered by
+                // the map: leave it to the guard arms below, which are tried in declaration order.
+                let shadowed = |key: &str| {
+                    phf_earlier_insensitive
+                        .iter()
+                        .any(|earlier: &String| earlier.eq_ignore_ascii_case(key))
+                };
+
+                if !shadowed(&serialization.value()) && phf_keys.insert(serialization.value()) {
                     phf_exact_match_arms.push(quote! { #serialization => #name::#ident #params, });
                 }
 
@@ -135,10 +145,10 @@ pub fn from_string_inner(ast: &DeriveInput) -> syn::Result<TokenStream> {
                         syn::LitStr::new(&ser_string.to_ascii_lowercase(), serialization.span());
                     let upper =
                         syn::LitStr::new(&ser_string.to_ascii_uppercase(), serialization.span());
-                    if phf_keys.insert(lower.value()) {
+                    if !shadowed(&lower.value()) && phf_keys.insert(lower.value()) {
                         phf_exact_match_arms.push(quote! { #lower => #name::#ident #params, });
                     }
-                    if phf_keys.insert(upper.value()) {
+                    if !shadowed(&upper.value()) && phf_keys.insert(upper.value()) {
                         phf_exact_match_arms.push(quote! { #upper => #name::#ident #params, });
                     }
                     standard_match_arms.push(quote! { s if s.eq_ignore_ascii_case(#serialization) => #name::#ident #params, });
@@ -150,6 +160,10 @@ pub fn from_string_inner(ast: &DeriveInput) -> syn::Result<TokenStream> {
                     quote! { s if s.eq_ignore_ascii_case(#serialization) => #name::#ident #params, }
                 });
             }
+        }
+
+        if type_properties.use_phf && is_ascii_case_insensitive {
+            phf_earlier_insensitive.extend(serializations.iter().map(syn::LitStr::value));
         }
     }
 
